@@ -215,6 +215,9 @@ although the exact quotient of the two doubles is below 10), non-grid spike time
 `FlDom` (every product/quotient zero or in the normal range of binary64, samples below 2^63) is the domain on
 which `roundDouble` IS the hardware's result and `astype(int64)` is defined; the proof does not need it
 (`roundDouble` is a total, monotone function), it delimits what the statement says about the real code.
+Outside `FlDom`, observed on the real code: times `[0, 1e300]` at rate `1e10` — the product is `inf`, `astype(int64)`
+yields INT64_MIN with a RuntimeWarning and `ravel_multi_index` raises ValueError; times `[0, 1e-320, 3e-320]` at 1 kHz —
+subnormal products, all samples 0 (here the same as the model, not in general).
 The real code rejects (AssertionError): rate ≤ 0, decreasing times, a bin below one sample
 (`correlogramsFl_rejects`); times and labels of different lengths. -/
 theorem correlogramsFl_eq_spec (times : List Rat) (sc : List Int) (ids : List Nat) (rate bin window : Rat) (sym : Bool)
@@ -347,7 +350,9 @@ theorem roundDouble_half_ulp (q : Rat) (hq : q ≠ 0) :
 theorem roundDouble_rel (q : Rat) : absR (roundDouble q - q) ≤ pow2 (-53) * absR q :=
   Lemmas.roundDouble_rel q
 
-/-- NEAREST: no number with at most 53 significant bits (any exponent) is closer to `q` -/
+/-- NEAREST: no number with at most 53 significant bits (any exponent) is closer to `q`.  Every finite binary64
+number, normal or subnormal, is such a number (`IsDouble`), and on `InRange` the result is itself a normal double
+(`roundDouble_binary64`): it is then A nearest double. -/
 theorem roundDouble_nearest (q r : Rat) (hr : IsDouble r) : absR (roundDouble q - q) ≤ absR (r - q) :=
   Lemmas.roundDouble_nearest q r hr
 
